@@ -677,7 +677,8 @@ class Conv:
                     t.atoms[ba].args):
                 return t.atoms[ba].args[int(k)]
         if base.single_atom() is None and len(conv) == 1 and \
-                isinstance(conv[0], RF) and base.atoms():
+                isinstance(conv[0], RF) and base.atoms() and \
+                not getattr(self, 'no_distribute', False):
             # element-wise arithmetic commutes with picking one element:
             # (a*b + c)[i] == a[i]*b[i] + c[i]
             i = conv[0]
